@@ -1,3 +1,361 @@
+(* C13 — UUID/GUID text and binary forms are mutually inverse and standards-conformant.
+   Statements only; proofs are in Proofs/C13Uuid.v, C13UuidV.v, C13Main.v, C13Guid.v,
+   C13GuidText.v, C13GuidTotal.v.
+
+   Conventions: a byte string is a [list N] with [wf_bytes] (every element < 256); "16 bytes" is
+   [length bs = 16], so the theorems on [bs] quantify over all 2^128 values.  Go strings are byte
+   lists; [upper]/[lower] change ASCII letters only. *)
 From Coq Require Import List NArith Lia.
-From Mant Require Import Prim.R Prim.Bytes Model.Uuid Model.Guid.
-Example C13_stub : 1 = 1. Proof. reflexivity. Qed.
+From Mant Require Import Prim.R Prim.Bytes Prim.Dec Prim.HexNum Prim.GoStr Model.Uuid Model.Guid Spec.C13
+  Proofs.C13Uuid Proofs.C13UuidV Proofs.C13Main Proofs.C13Guid Proofs.C13GuidText Proofs.C13GuidTotal.
+Import ListNotations.
+Open Scope N_scope.
+
+(* ================= generic UUID (crypto/uuid/uuid.go) ================= *)
+
+(* Every 16-byte string unmarshals, and marshalling the result gives the same 16 bytes back; the
+   Version is RFC 4122's version nibble. *)
+Theorem C13_uuid_bin : forall bs, wf_bytes bs -> length bs = 16%nat ->
+  exists ver var d, uuid_unmarshal bs = Ok (ver, var, d) /\ uuid_marshal ver var d = bs
+    /\ ver < 16 /\ var < 16 /\ wf_bytes d /\ length d = 15%nat /\ ver = rfc_version bs.
+Proof. exact uuid_bin_bytes. Qed.
+Print Assumptions C13_uuid_bin.
+
+(* Every field assignment within the widths (4-bit Version and Variant, 15 data bytes) survives
+   Marshal then Unmarshal. *)
+Theorem C13_uuid_bin_fields : forall ver var d, ver < 16 -> var < 16 -> wf_bytes d -> length d = 15%nat ->
+  uuid_unmarshal (uuid_marshal ver var d) = Ok (ver, var, d)
+  /\ length (uuid_marshal ver var d) = 16%nat /\ wf_bytes (uuid_marshal ver var d).
+Proof. exact uuid_bin_fields. Qed.
+Print Assumptions C13_uuid_bin_fields.
+
+(* Unmarshal reads the first 16 bytes of a longer buffer. *)
+Theorem C13_uuid_bin_prefix : forall bs extra, length bs = 16%nat ->
+  uuid_unmarshal (bs ++ extra) = uuid_unmarshal bs.
+Proof. exact uuid_unmarshal_prefix. Qed.
+Print Assumptions C13_uuid_bin_prefix.
+
+(* String() is the RFC 4122 text (8-4-4-4-12, lower case) of the 16 bytes, and FromString reads that
+   text, in lower or upper case, as Unmarshal reads the bytes. *)
+Theorem C13_uuid_text : forall bs, wf_bytes bs -> length bs = 16%nat ->
+  uuid_text bs = rfc_text bs
+  /\ uuid_from_string (rfc_text bs) = uuid_unmarshal bs
+  /\ uuid_from_string (upper (rfc_text bs)) = uuid_unmarshal bs.
+Proof. exact uuid_text_bytes. Qed.
+Print Assumptions C13_uuid_text.
+
+Theorem C13_uuid_text_fields : forall ver var d, ver < 16 -> var < 16 -> wf_bytes d -> length d = 15%nat ->
+  uuid_string ver var d = rfc_text (uuid_marshal ver var d)
+  /\ uuid_from_string (uuid_string ver var d) = Ok (ver, var, d)
+  /\ uuid_from_string (upper (uuid_string ver var d)) = Ok (ver, var, d).
+Proof. exact uuid_text_fields. Qed.
+Print Assumptions C13_uuid_text_fields.
+
+(* Whatever FromString accepts (hyphens anywhere, any letter case) prints back as its canonical form:
+   the 32 digits lower-cased and regrouped 8-4-4-4-12 — equal to the lower-cased input whenever the
+   input is already grouped that way. *)
+Theorem C13_uuid_text_canonical : forall s ver var d, uuid_from_string s = Ok (ver, var, d) ->
+  uuid_string ver var d = hyphenate (lower (remove_byte 45 s)).
+Proof. exact uuid_string_from_string. Qed.
+Print Assumptions C13_uuid_text_canonical.
+
+(* ================= versions 1, 2, 8 ================= *)
+
+Theorem C13_v1_fields : forall var time cs node,
+  var < 16 -> time < 2 ^ 60 -> cs < 2 ^ 12 -> wf_bytes node -> length node = 6%nat ->
+  v1_unmarshal (v1_marshal var time cs node) = Ok (var, time, cs, node)
+  /\ length (v1_marshal var time cs node) = 16%nat /\ wf_bytes (v1_marshal var time cs node).
+Proof. exact v1_fields. Qed.
+Print Assumptions C13_v1_fields.
+
+(* every 16-byte string the v1 parser accepts is reproduced by Marshal, and its fields are in range *)
+Theorem C13_v1_bin : forall bs var time cs node, wf_bytes bs -> length bs = 16%nat ->
+  v1_unmarshal bs = Ok (var, time, cs, node) ->
+  v1_marshal var time cs node = bs /\ var < 16 /\ time < 2 ^ 60 /\ cs < 2 ^ 12
+  /\ wf_bytes node /\ length node = 6%nat.
+Proof. exact v1_bin. Qed.
+Print Assumptions C13_v1_bin.
+
+Theorem C13_v1_text : forall var time cs node,
+  var < 16 -> time < 2 ^ 60 -> cs < 2 ^ 12 -> wf_bytes node -> length node = 6%nat ->
+  v1_string var time cs node = rfc_text (v1_marshal var time cs node)
+  /\ v1_from_string (v1_string var time cs node) = Ok (var, time, cs, node)
+  /\ v1_from_string (upper (v1_string var time cs node)) = Ok (var, time, cs, node).
+Proof. exact v1_text. Qed.
+Print Assumptions C13_v1_text.
+
+(* v2: the low 32 bits of Time are not transmitted (the local identifier takes their place), so
+   "within the field widths" means Time < 2^60 with its low 32 bits zero, Clock < 16. *)
+Theorem C13_v2_fields : forall var ldn time clock ld node,
+  var < 16 -> ldn < 2 ^ 32 -> v2_time_ok time -> clock < 16 -> ld < 256 -> wf_bytes node -> length node = 6%nat ->
+  v2_unmarshal (v2_marshal var ldn time clock ld node) = Ok (var, ldn, time, clock, ld, node)
+  /\ length (v2_marshal var ldn time clock ld node) = 16%nat /\ wf_bytes (v2_marshal var ldn time clock ld node).
+Proof. exact v2_fields. Qed.
+Print Assumptions C13_v2_fields.
+
+Theorem C13_v2_bin : forall bs var ldn time clock ld node, wf_bytes bs -> length bs = 16%nat ->
+  v2_unmarshal bs = Ok (var, ldn, time, clock, ld, node) ->
+  v2_marshal var ldn time clock ld node = bs /\ var < 16 /\ ldn < 2 ^ 32 /\ v2_time_ok time /\ clock < 16
+  /\ ld < 256 /\ wf_bytes node /\ length node = 6%nat.
+Proof. exact v2_bin. Qed.
+Print Assumptions C13_v2_bin.
+
+Theorem C13_v2_text : forall var ldn time clock ld node,
+  var < 16 -> ldn < 2 ^ 32 -> v2_time_ok time -> clock < 16 -> ld < 256 -> wf_bytes node -> length node = 6%nat ->
+  v2_string var ldn time clock ld node = rfc_text (v2_marshal var ldn time clock ld node)
+  /\ v2_from_string (v2_string var ldn time clock ld node) = Ok (var, ldn, time, clock, ld, node)
+  /\ v2_from_string (upper (v2_string var ldn time clock ld node)) = Ok (var, ldn, time, clock, ld, node).
+Proof. exact v2_text. Qed.
+Print Assumptions C13_v2_text.
+
+Theorem C13_v8_fields : forall var d, var < 16 -> wf_bytes d -> length d = 15%nat ->
+  v8_unmarshal (v8_marshal var d) = Ok (var, d)
+  /\ length (v8_marshal var d) = 16%nat /\ wf_bytes (v8_marshal var d).
+Proof. exact v8_fields. Qed.
+Print Assumptions C13_v8_fields.
+
+Theorem C13_v8_bin : forall bs var d, wf_bytes bs -> length bs = 16%nat ->
+  v8_unmarshal bs = Ok (var, d) -> v8_marshal var d = bs /\ var < 16 /\ wf_bytes d /\ length d = 15%nat
+  /\ rfc_version bs = 8.
+Proof. exact v8_bin. Qed.
+Print Assumptions C13_v8_bin.
+
+Theorem C13_v8_text : forall var d, var < 16 -> wf_bytes d -> length d = 15%nat ->
+  v8_string var d = rfc_text (v8_marshal var d)
+  /\ v8_from_string (v8_string var d) = Ok (var, d)
+  /\ v8_from_string (upper (v8_string var d)) = Ok (var, d).
+Proof. exact v8_text. Qed.
+Print Assumptions C13_v8_text.
+
+(* the version-specific FromString on the text of any 16 bytes = FromBytes on the bytes *)
+Theorem C13_vN_text_bytes : forall bs, wf_bytes bs -> length bs = 16%nat ->
+  (v1_from_string (rfc_text bs) = v1_from_bytes bs /\ v1_from_string (upper (rfc_text bs)) = v1_from_bytes bs) /\
+  (v2_from_string (rfc_text bs) = v2_from_bytes bs /\ v2_from_string (upper (rfc_text bs)) = v2_from_bytes bs) /\
+  (v8_from_string (rfc_text bs) = v8_from_bytes bs /\ v8_from_string (upper (rfc_text bs)) = v8_from_bytes bs).
+Proof. exact vN_text_bytes. Qed.
+Print Assumptions C13_vN_text_bytes.
+
+(* whatever a version-specific FromString accepts prints back as its canonical form *)
+Theorem C13_v1_text_canonical : forall s var time cs node, v1_from_string s = Ok (var, time, cs, node) ->
+  v1_string var time cs node = hyphenate (lower (remove_byte 45 s)).
+Proof. exact v1_text_canonical. Qed.
+Print Assumptions C13_v1_text_canonical.
+
+Theorem C13_v2_text_canonical : forall s var ldn time clock ld node,
+  v2_from_string s = Ok (var, ldn, time, clock, ld, node) ->
+  v2_string var ldn time clock ld node = hyphenate (lower (remove_byte 45 s)).
+Proof. exact v2_text_canonical. Qed.
+Print Assumptions C13_v2_text_canonical.
+
+Theorem C13_v8_text_canonical : forall s var d, v8_from_string s = Ok (var, d) ->
+  v8_string var d = hyphenate (lower (remove_byte 45 s)).
+Proof. exact v8_text_canonical. Qed.
+Print Assumptions C13_v8_text_canonical.
+
+(* ================= RFC 4122 ================= *)
+
+(* For every 16-byte string accepted as version 1: the timestamp and the node are exactly those of
+   the independent RFC 4122 extractor; the clock sequence is the RFC's 14-bit clock sequence
+   truncated to 12 bits, its two upper bits being the low bits of Variant; Variant is 8..11 exactly
+   when the RFC variant bits are 10. *)
+Theorem C13_rfc4122 : forall bs var time cs node, wf_bytes bs -> length bs = 16%nat ->
+  v1_unmarshal bs = Ok (var, time, cs, node) ->
+  rfc_version bs = 1 /\ time = rfc_timestamp bs /\ node = rfc_node bs
+  /\ cs = rfc_clock_seq bs mod 2 ^ 12 /\ 2 ^ 12 * (var mod 4) + cs = rfc_clock_seq bs
+  /\ (rfc_variant_4122 bs = true <-> 8 <= var < 12).
+Proof. exact v1_rfc. Qed.
+Print Assumptions C13_rfc4122.
+
+(* KNOWN FINDING C13/v1-clockseq-12bit: the full-strength statement "ClockSeq is RFC 4122's clock
+   sequence" is false (witness ff..1f..ff: 0xfff against 0x3fff); C13_rfc4122 above states what
+   holds, i.e. equality on the complement rfc_clock_seq bs < 2^12 and the exact relation elsewhere. *)
+Theorem C13_rfc4122_clockseq_refuted : ~ v1_clockseq_is_rfc.
+Proof. exact v1_clockseq_refuted. Qed.
+Print Assumptions C13_rfc4122_clockseq_refuted.
+
+(* In the encoding direction the RFC 4122 section 4.2.2 encoder is met for every 60-bit timestamp,
+   14-bit clock sequence and node, when the two upper clock-sequence bits are placed in Variant. *)
+Theorem C13_rfc4122_encode : forall ts cs14 node,
+  ts < 2 ^ 60 -> cs14 < 2 ^ 14 -> wf_bytes node -> length node = 6%nat ->
+  v1_marshal (8 + cs14 / 2 ^ 12) ts (cs14 mod 2 ^ 12) node = rfc_v1_encode ts cs14 node.
+Proof. exact v1_marshal_rfc. Qed.
+Print Assumptions C13_rfc4122_encode.
+
+(* v2 against the DCE layout: local identifier = time_low, domain = clk_seq_low, node, the upper 28
+   timestamp bits; Clock is the 6-bit DCE clock truncated to 4 bits (KNOWN FINDING C13/v2-clock-4bit). *)
+Theorem C13_v2_dce : forall bs var ldn time clock ld node, wf_bytes bs -> length bs = 16%nat ->
+  v2_unmarshal bs = Ok (var, ldn, time, clock, ld, node) ->
+  rfc_version bs = 2 /\ ldn = rfc_time_low bs /\ ld = octet bs 9 /\ node = rfc_node bs
+  /\ time = rfc_timestamp bs - rfc_time_low bs /\ clock = (octet bs 8 mod 64) mod 16.
+Proof. exact v2_dce. Qed.
+Print Assumptions C13_v2_dce.
+
+Theorem C13_v2_clock_refuted : ~ v2_clock_is_dce.
+Proof. exact v2_clock_refuted. Qed.
+Print Assumptions C13_v2_clock_refuted.
+
+(* ================= GUID (windows/guid, ms_dtyp GUID) ================= *)
+
+Theorem C13_guid_bin : forall bs, wf_bytes bs -> length bs = 16%nat ->
+  exists g, guid_from_raw bs = Ok g /\ guid_to_bytes g = bs /\ guid_ok g.
+Proof. exact guid_bin_bytes. Qed.
+Print Assumptions C13_guid_bin.
+
+Theorem C13_guid_bin_fields : forall g, guid_ok g ->
+  guid_from_raw (guid_to_bytes g) = Ok g /\ length (guid_to_bytes g) = 16%nat /\ wf_bytes (guid_to_bytes g).
+Proof. exact guid_bin_fields. Qed.
+Print Assumptions C13_guid_bin_fields.
+
+Theorem C13_guid_bin_prefix : forall bs extra, length bs = 16%nat ->
+  guid_from_raw (bs ++ extra) = guid_from_raw bs.
+Proof. exact guid_from_raw_prefix. Qed.
+Print Assumptions C13_guid_bin_prefix.
+
+(* the mixed-endian layout is MS-DTYP 2.3.4.2: Data1/2/3 little-endian, Data4 verbatim, with
+   D = Data4[0..1] and E = Data4[2..7] read most significant byte first *)
+Theorem C13_guid_dtyp_encode : forall g, guid_to_bytes g = dtyp_encode (dtyp_of g).
+Proof. exact guid_to_bytes_dtyp. Qed.
+Print Assumptions C13_guid_dtyp_encode.
+
+Theorem C13_guid_dtyp_decode : forall bs, length bs = 16%nat -> guid_from_raw bs = Ok (of_dtyp (dtyp_decode bs)).
+Proof. exact guid_from_raw_dtyp. Qed.
+Print Assumptions C13_guid_dtyp_decode.
+
+Theorem C13_guid_dtyp_roundtrip : forall x, dtyp_ok x ->
+  guid_from_raw (dtyp_encode x) = Ok (of_dtyp x) /\ dtyp_of (of_dtyp x) = x.
+Proof. exact dtyp_roundtrip. Qed.
+Print Assumptions C13_guid_dtyp_roundtrip.
+
+(* For each format f of N D B P X and every GUID within the field widths: the printed text parses
+   back to the same fields, through FromString and through FromFormat<f>, in lower and in upper
+   case; and the printed text is the format-f rendering of the MS-DTYP hex digits. *)
+Theorem C13_guid_text : forall f g, guid_ok g ->
+  guid_from_string (guid_to f g) = Ok g /\ guid_from f (guid_to f g) = Ok g
+  /\ guid_from_string (upper (guid_to f g)) = Ok g /\ guid_from f (upper (guid_to f g)) = Ok g
+  /\ guid_to f g = fmt_of f (dtyp_hex (dtyp_of g)).
+Proof. exact guid_text_fields. Qed.
+Print Assumptions C13_guid_text.
+
+(* For each format f and every string s that is, in any mixture of letter cases, the format-f
+   rendering of 32 hexadecimal digits: s parses, and printing the result in format f gives lower s. *)
+Theorem C13_guid_text_canonical : forall f s h, is_hex32 h -> lower s = fmt_of f h ->
+  guid_from_string s = Ok (g_of_hex h) /\ guid_from f s = Ok (g_of_hex h)
+  /\ guid_to f (g_of_hex h) = lower s /\ guid_ok (g_of_hex h).
+Proof. exact guid_text_canonical. Qed.
+Print Assumptions C13_guid_text_canonical.
+
+(* FromString accepts nothing else: every accepted string is, after TrimSpace and ToLower, one of
+   the five renderings, and the result printed in that format is that trimmed lower-cased input. *)
+Theorem C13_guid_text_only : forall s g, guid_from_string s = Ok g ->
+  guid_ok g /\ exists f, guid_to f g = prep s /\ guid_from f s = Ok g.
+Proof. exact guid_parse_print. Qed.
+Print Assumptions C13_guid_text_only.
+
+(* ================= totality (reused by C07) ================= *)
+
+Theorem C13_total_uuid_unmarshal : forall bs, uuid_unmarshal bs <> Panic.
+Proof. exact uuid_unmarshal_total. Qed.
+Print Assumptions C13_total_uuid_unmarshal.
+Theorem C13_total_uuid_from_string : forall s, uuid_from_string s <> Panic.
+Proof. exact uuid_from_string_total. Qed.
+Print Assumptions C13_total_uuid_from_string.
+Theorem C13_total_v1_unmarshal : forall bs, v1_unmarshal bs <> Panic.
+Proof. exact v1_unmarshal_total. Qed.
+Print Assumptions C13_total_v1_unmarshal.
+Theorem C13_total_v1_from_bytes : forall bs, v1_from_bytes bs <> Panic.
+Proof. exact v1_from_bytes_total. Qed.
+Print Assumptions C13_total_v1_from_bytes.
+Theorem C13_total_v1_from_string : forall s, v1_from_string s <> Panic.
+Proof. exact v1_from_string_total. Qed.
+Print Assumptions C13_total_v1_from_string.
+Theorem C13_total_v2_unmarshal : forall bs, v2_unmarshal bs <> Panic.
+Proof. exact v2_unmarshal_total. Qed.
+Print Assumptions C13_total_v2_unmarshal.
+Theorem C13_total_v2_from_bytes : forall bs, v2_from_bytes bs <> Panic.
+Proof. exact v2_from_bytes_total. Qed.
+Print Assumptions C13_total_v2_from_bytes.
+Theorem C13_total_v2_from_string : forall s, v2_from_string s <> Panic.
+Proof. exact v2_from_string_total. Qed.
+Print Assumptions C13_total_v2_from_string.
+Theorem C13_total_v8_unmarshal : forall bs, v8_unmarshal bs <> Panic.
+Proof. exact v8_unmarshal_total. Qed.
+Print Assumptions C13_total_v8_unmarshal.
+Theorem C13_total_v8_from_bytes : forall bs, v8_from_bytes bs <> Panic.
+Proof. exact v8_from_bytes_total. Qed.
+Print Assumptions C13_total_v8_from_bytes.
+Theorem C13_total_v8_from_string : forall s, v8_from_string s <> Panic.
+Proof. exact v8_from_string_total. Qed.
+Print Assumptions C13_total_v8_from_string.
+Theorem C13_total_set_node : forall bs, set_node bs <> Panic.
+Proof. exact set_node_total. Qed.
+Print Assumptions C13_total_set_node.
+Theorem C13_total_guid_from_raw : forall bs, guid_from_raw bs <> Panic.
+Proof. exact guid_from_raw_total. Qed.
+Print Assumptions C13_total_guid_from_raw.
+Theorem C13_total_guid_from_string : forall s, guid_from_string s <> Panic.
+Proof. exact guid_from_string_total. Qed.
+Print Assumptions C13_total_guid_from_string.
+Theorem C13_total_guid_from_n : forall s, guid_from_n s <> Panic.
+Proof. exact guid_from_n_total. Qed.
+Print Assumptions C13_total_guid_from_n.
+Theorem C13_total_guid_from_d : forall s, guid_from_d s <> Panic.
+Proof. exact guid_from_d_total. Qed.
+Print Assumptions C13_total_guid_from_d.
+Theorem C13_total_guid_from_b : forall s, guid_from_b s <> Panic.
+Proof. exact (guid_from_enclosed_total 123 125). Qed.
+Print Assumptions C13_total_guid_from_b.
+Theorem C13_total_guid_from_p : forall s, guid_from_p s <> Panic.
+Proof. exact (guid_from_enclosed_total 40 41). Qed.
+Print Assumptions C13_total_guid_from_p.
+Theorem C13_total_guid_from_x : forall s, guid_from_x s <> Panic.
+Proof. exact guid_from_x_total. Qed.
+Print Assumptions C13_total_guid_from_x.
+
+(* ================= non-vacuity and notes ================= *)
+
+Definition ex_bytes : list N := [25; 197; 92; 2; 52; 6; 17; 240; 156; 210; 2; 66; 172; 18; 0; 2].
+  (* 19c55c02-3406-11f0-9cd2-0242ac120002, a vector of the package tests *)
+
+Example C13_ex_uuid : wf_bytes ex_bytes /\ length ex_bytes = 16%nat /\
+  uuid_from_string (rfc_text ex_bytes) = uuid_unmarshal ex_bytes /\
+  v1_unmarshal ex_bytes = Ok (9, 139668789255298050, 3282, [2; 66; 172; 18; 0; 2]) /\
+  rfc_clock_seq ex_bytes = 7378.
+Proof. split; [apply wf_bytesb_spec; vm_compute; reflexivity|]. vm_compute. repeat split. Qed.
+
+Example C13_ex_v1_fields :
+  v1_unmarshal (v1_marshal 9 139668789255298050 3282 [2; 66; 172; 18; 0; 2])
+  = Ok (9, 139668789255298050, 3282, [2; 66; 172; 18; 0; 2])
+  /\ v1_marshal 9 139668789255298050 3282 [2; 66; 172; 18; 0; 2] = ex_bytes.
+Proof. vm_compute. split; reflexivity. Qed.
+
+Example C13_ex_v2_time : v2_time_ok (2 ^ 59 + 2 ^ 32).
+Proof. split; vm_compute; reflexivity. Qed.
+
+Definition ex_guid : guid := mkGuid 305419896 4660 22136 39612 245122678937208.
+  (* 12345678-1234-5678-9abc-def012345678 *)
+
+Example C13_ex_guid : guid_ok ex_guid /\
+  guid_to FX ex_guid = [123; 48; 120; 49; 50; 51; 52; 53; 54; 55; 56; 44; 48; 120; 49; 50; 51; 52; 44; 48; 120; 53; 54; 55; 56;
+    44; 123; 48; 120; 57; 97; 44; 48; 120; 98; 99; 44; 48; 120; 100; 101; 44; 48; 120; 102; 48; 44; 48; 120; 49; 50; 44;
+    48; 120; 51; 52; 44; 48; 120; 53; 54; 44; 48; 120; 55; 56; 125; 125] /\
+  guid_from_string (upper (guid_to FX ex_guid)) = Ok ex_guid /\
+  guid_to_bytes ex_guid = [120; 86; 52; 18; 52; 18; 120; 86; 154; 188; 222; 240; 18; 52; 86; 120].
+Proof. split; [repeat split; vm_compute; reflexivity|]. vm_compute. repeat split. Qed.
+
+Example C13_ex_hex32 : is_hex32 (guid_to_n ex_guid) /\ lower (upper (fmt_of FB (guid_to_n ex_guid))) = fmt_of FB (guid_to_n ex_guid).
+Proof. vm_compute. repeat split. Qed.
+
+(* Note (not part of the property): called directly, FromFormatD does not check the part lengths —
+   "1-2-3-4-5" parses, and prints back in canonical form, not as the input.  FromString never
+   reaches it with such input (C13_guid_text_only). *)
+Example C13_note_from_d_lenient :
+  guid_from_d [49; 45; 50; 45; 51; 45; 52; 45; 53] = Ok (mkGuid 1 2 3 4 5) /\
+  guid_from_string [49; 45; 50; 45; 51; 45; 52; 45; 53] = Err.
+Proof. vm_compute. split; reflexivity. Qed.
+
+(* Note: ToBytes writes only the low 48 bits of the uint64 field E and ToFormat* print more than 12
+   digits when E >= 2^48; such values are outside the field widths (NewGUID never produces them). *)
+Example C13_note_e_width :
+  guid_from_raw (guid_to_bytes (mkGuid 0 0 0 0 (2 ^ 48))) = Ok (mkGuid 0 0 0 0 0) /\
+  length (guid_to_n (mkGuid 0 0 0 0 (2 ^ 48))) = 33%nat.
+Proof. vm_compute. split; reflexivity. Qed.
